@@ -202,8 +202,10 @@ class Graph(StateRepresentationBase):
             in the symplectic formalism. If not, graphs are not LC equivalent and returns False, None.
         :rtype: bool, numpy.ndarray or None
         """
-        g1 = nx.to_numpy_array(self.data).astype(int)
-        g2 = nx.to_numpy_array(other_graph.data).astype(int)
+        # both adjacency matrices must list the vertices in the same order
+        nodelist = sorted(self.data.nodes)
+        g1 = nx.to_numpy_array(self.data, nodelist=nodelist).astype(int)
+        g2 = nx.to_numpy_array(other_graph.data, nodelist=nodelist).astype(int)
         return is_lc_equivalent(g1, g2, mode=mode)
 
     @property
